@@ -302,4 +302,161 @@ theorem terminates (nb : V → List V) (Vs : List V) (hu : Undirected nb Vs) (ro
     (bgo nb (biccFuel nb Vs) (init nb root)).stack = [] :=
   bgo_empty nb Vs hu _ _ (inv1_init nb Vs root hr) (pot_init nb Vs root hr)
 
+/-! ## RUNG 2: every node is discovered -/
+
+/-- `w` is a neighbour of the discovered node `u` that the loop has already looked at -/
+def Scanned (nb : V → List V) (vis : List V) (st : List Frame) (u w : V) : Prop :=
+  u ∈ vis ∧ w ∈ nb u ∧ ∀ f ∈ st, f.child = u → w ∈ f.nbrs.take f.ptr
+
+theorem take_succ_mem {l : List V} {i : Nat} {w : V} (h : w ∈ l.take (i + 1)) :
+    w ∈ l.take i ∨ w = l.getD i "" := by
+  rw [List.take_add_one] at h
+  rcases List.mem_append.mp h with h | h
+  · exact Or.inl h
+  · right
+    rw [List.getD_eq_getElem?_getD]
+    cases hi : l[i]? with
+    | none => simp [hi] at h
+    | some x => simp [hi] at h; simp [h]
+
+/-- pointer advance: the only new scanned pair is (child, next neighbour) -/
+theorem scanned_adv {nb : V → List V} {vis : List V} {f : Frame} {rest : List Frame} {u w : V}
+    (h : Scanned nb vis (adv f :: rest) u w) :
+    Scanned nb vis (f :: rest) u w ∨ (u = f.child ∧ w = f.nbrs.getD f.ptr "") := by
+  obtain ⟨h1, h2, h3⟩ := h
+  by_cases hu : f.child = u
+  · have := h3 (adv f) (by simp) hu
+    rcases take_succ_mem this with h | h
+    · left
+      refine ⟨h1, h2, ?_⟩
+      intro g hg hgu
+      rcases List.mem_cons.mp hg with hg | hg
+      · rw [hg]; exact h
+      · exact h3 g (List.mem_cons_of_mem _ hg) hgu
+    · right; exact ⟨hu.symm, h⟩
+  · left
+    refine ⟨h1, h2, ?_⟩
+    intro g hg hgu
+    rcases List.mem_cons.mp hg with hg | hg
+    · rw [hg] at hgu; exact absurd hgu hu
+    · exact h3 g (List.mem_cons_of_mem _ hg) hgu
+
+/-- discovery of `nn`: nothing of `nn` is scanned yet -/
+theorem scanned_push {nb : V → List V} {vis : List V} {f : Frame} {rest : List Frame} {nn p u w : V} {l : List V}
+    (h : Scanned nb (nn :: vis) (⟨p, nn, 0, l⟩ :: adv f :: rest) u w) :
+    u ≠ nn ∧ (Scanned nb vis (f :: rest) u w ∨ (u = f.child ∧ w = f.nbrs.getD f.ptr "")) := by
+  obtain ⟨h1, h2, h3⟩ := h
+  have hne : u ≠ nn := by
+    intro he
+    have := h3 ⟨p, nn, 0, l⟩ (by simp) he.symm
+    simp at this
+  refine ⟨hne, ?_⟩
+  apply scanned_adv
+  refine ⟨?_, h2, ?_⟩
+  · rcases List.mem_cons.mp h1 with h | h
+    · exact absurd h hne
+    · exact h
+  · intro g hg
+    exact h3 g (List.mem_cons_of_mem _ hg)
+
+/-- pop of an exhausted frame: nothing new is scanned -/
+theorem scanned_pop {nb : V → List V} {vis : List V} {f : Frame} {rest : List Frame} {u w : V}
+    (hn : f.nbrs = nb f.child) (hlt : ¬ f.ptr < f.nbrs.length)
+    (h : Scanned nb vis rest u w) : Scanned nb vis (f :: rest) u w := by
+  obtain ⟨h1, h2, h3⟩ := h
+  refine ⟨h1, h2, ?_⟩
+  intro g hg hgu
+  rcases List.mem_cons.mp hg with hg | hg
+  · subst hg; rw [List.take_of_length_le (by omega), hn, hgu]; exact h2
+  · exact h3 g hg hgu
+
+structure Inv2 (nb : V → List V) (root : V) (s : BSt) : Prop where
+  root : root ∈ s.visited
+  scan : ∀ u w, Scanned nb s.visited s.stack u w → w ∈ s.visited
+
+theorem inv2_init (nb : V → List V) (root : V) : Inv2 nb root (init nb root) := by
+  constructor
+  · simp [init]
+  · intro u w h
+    obtain ⟨h1, _, h3⟩ := h
+    simp [init] at h1
+    have := h3 ⟨root, root, 0, nb root⟩ (by simp [init]) h1.symm
+    simp at this
+
+theorem inv2_step (nb : V → List V) (Vs : List V) (root : V) (s : BSt) (h1 : Inv1 nb Vs s)
+    (h : Inv2 nb root s) : Inv2 nb root (bstep nb s) := by
+  obtain ⟨hr, hsc⟩ := h
+  have adv_case : ∀ f rest, s.stack = f :: rest → f.nbrs.getD f.ptr "" ∈ s.visited →
+      ∀ u w, Scanned nb s.visited (adv f :: rest) u w → w ∈ s.visited := by
+    intro f rest hs hnn u w h
+    rcases scanned_adv h with h | ⟨_, h⟩
+    · rw [hs] at hsc; exact hsc u w h
+    · rw [h]; exact hnn
+  have pop_case : ∀ f rest, s.stack = f :: rest → ¬ f.ptr < f.nbrs.length →
+      ∀ u w, Scanned nb s.visited rest u w → w ∈ s.visited := by
+    intro f rest hs hlt u w h
+    rw [hs] at hsc
+    exact hsc u w (scanned_pop (h1.nbrs f (by simp [hs])) hlt h)
+  apply bstep_cases
+  · intro _; exact ⟨hr, hsc⟩
+  · intro f rest hs hlt hp
+    exact ⟨hr, adv_case f rest hs (by rw [hp]; exact h1.parent f (by simp [hs]))⟩
+  · intro f rest nn hs hlt hnn hp hv hle
+    exact ⟨hr, adv_case f rest hs (by rw [← hnn]; exact hv)⟩
+  · intro f rest nn hs hlt hnn hp hv hle
+    exact ⟨hr, adv_case f rest hs (by rw [← hnn]; exact hv)⟩
+  · intro f rest nn hs hlt hnn hp hv
+    refine ⟨List.mem_cons_of_mem _ hr, ?_⟩
+    intro u w h
+    rcases (scanned_push h).2 with h | ⟨_, h⟩
+    · rw [hs] at hsc; exact List.mem_cons_of_mem _ (hsc u w h)
+    · rw [h, ← hnn]; simp
+  · intro f rest hs hlt hlen hc
+    exact ⟨hr, pop_case f rest hs hlt⟩
+  · intro f rest hs hlt hlen hc
+    exact ⟨hr, pop_case f rest hs hlt⟩
+  · intro f rest hs hlt hlen
+    exact ⟨hr, pop_case f rest hs hlt⟩
+  · intro f hs hlt
+    exact ⟨hr, pop_case f [] hs hlt⟩
+
+/-- all invariants so far hold in every state the loop reaches -/
+theorem inv12_bgo (nb : V → List V) (Vs : List V) (hu : Undirected nb Vs) (root : V) (hr : root ∈ Vs) (n : Nat) :
+    Inv1 nb Vs (bgo nb n (init nb root)) ∧ Inv2 nb root (bgo nb n (init nb root)) := by
+  apply bgo_inv nb (fun s => Inv1 nb Vs s ∧ Inv2 nb root s)
+  · intro s ⟨h1, h2⟩
+    exact ⟨inv1_step nb Vs hu s h1, inv2_step nb Vs root s h1 h2⟩
+  · exact ⟨inv1_init nb Vs root hr, inv2_init nb root⟩
+
+/-- in a connected graph any two nodes reach one another -/
+theorem connected_reach (nb : V → List V) (Vs : List V) (hu : Undirected nb Vs) (hc : connectedB nb Vs = true)
+    (x y : V) (hx : x ∈ Vs) (hy : y ∈ Vs) : Reach nb x y := by
+  match Vs, hu, hc, hx, hy with
+  | a0 :: W, hu, hc, hx, hy =>
+    have ha0 : a0 ∈ a0 :: W := by simp
+    have hcls : ∀ v, (classOf nb (a0 :: W) a0).contains v = true ↔ Reach nb a0 v := by
+      intro v
+      have := (C15.findComp_exact nb (a0 :: W) hu a0 ha0 []
+        (by intro a ha; simp at ha) (by simp)).2.1 v
+      simp only [classOf, List.contains_iff_mem]
+      exact this
+    have hall : ∀ v ∈ a0 :: W, Reach nb a0 v := by
+      simpa only [connectedB, List.all_eq_true, hcls] using hc
+    exact Reach.trans (Reach.symm hu.symm (hall x hx)) (hall y hy)
+
+theorem visits_all (nb : V → List V) (Vs : List V) (hu : Undirected nb Vs) (root : V) (hr : root ∈ Vs)
+    (hc : connectedB nb Vs = true) :
+    (bgo nb (biccFuel nb Vs) (init nb root)).visited.Nodup ∧
+    (∀ v, v ∈ (bgo nb (biccFuel nb Vs) (init nb root)).visited ↔ v ∈ Vs) := by
+  obtain ⟨h1, h2⟩ := inv12_bgo nb Vs hu root hr (biccFuel nb Vs)
+  have hst := terminates nb Vs hu root hr
+  refine ⟨h1.nodup, fun v => ⟨h1.sub v, fun hv => ?_⟩⟩
+  have hcl : ∀ a ∈ (bgo nb (biccFuel nb Vs) (init nb root)).visited, ∀ b ∈ nb a,
+      b ∈ (bgo nb (biccFuel nb Vs) (init nb root)).visited := by
+    intro a ha b hb
+    apply h2.scan a b
+    refine ⟨ha, hb, ?_⟩
+    rw [hst]; simp
+  exact Reach.mem_of_closed hcl (connected_reach nb Vs hu hc root v hr hv) h2.root
+
 end Gaftools.Proofs.Bicc
